@@ -2,7 +2,10 @@ package main
 
 import (
 	"os"
+	"runtime"
 	"strings"
+	"sync"
+	"sync/atomic"
 	"time"
 )
 
@@ -164,4 +167,41 @@ func init() {
 		}
 		return r
 	}
+}
+
+// runSpecsParallel runs many small specifications concurrently (one worker each); used when the number of
+// specifications is large (C16: one per legacy fixture).
+func runSpecsParallel(c *Ctx, specs []*Spec) *Result {
+	res := &Result{}
+	stats := make([]*RunStats, len(specs))
+	founds := make([]*Found, len(specs))
+	var wg sync.WaitGroup
+	var next int64
+	for wk := 0; wk < runtime.NumCPU(); wk++ {
+		wg.Add(1)
+		go func() {
+			defer wg.Done()
+			for {
+				i := int(atomic.AddInt64(&next, 1)) - 1
+				if i >= len(specs) {
+					return
+				}
+				s := specs[i]
+				s.Workers = 1
+				s.Deadline = c.Deadline
+				s.KF = c.KF
+				stats[i], founds[i] = Explore(s, c.KF)
+			}
+		}()
+	}
+	wg.Wait()
+	for i := range specs {
+		if stats[i] != nil {
+			res.Runs = append(res.Runs, stats[i])
+		}
+		if founds[i] != nil && res.Found == nil {
+			res.Found = founds[i]
+		}
+	}
+	return res
 }
